@@ -44,11 +44,25 @@ func varintValEvent(v uint64, prefix []byte) ev {
 	// append after the prefix and leave the prefix untouched
 	dst := make([]byte, len(prefix), len(prefix)+16)
 	copy(dst, prefix)
+	full := dst[:cap(dst)]
+	for i := len(prefix); i < len(full); i++ {
+		full[i] = 0xa5 ^ byte(i)
+	}
 	var out []byte
 	var size int
 	p := guard(func() { out = quicwire.AppendVarint(dst, v) })
 	e["append_panic"] = p
 	e["out"] = B(out)
+	// the encoder emits the bytes of the encoding and nothing else: what lies behind them in the destination's
+	// backing array (an arena shared with other data, a payload whose length is back-filled) is not its to write
+	spare := true
+	for i := len(prefix); i < len(full); i++ {
+		inOut := len(out) > 0 && &out[0] == &full[0] && i < len(out) // written in place: these bytes are the output
+		if !inOut && full[i] != 0xa5^byte(i) {
+			spare = false
+		}
+	}
+	e["spare_ok"] = spare
 	p = guard(func() { size = quicwire.SizeVarint(v) })
 	e["size_panic"] = p
 	e["size"] = size
@@ -69,6 +83,19 @@ func varintValEvent(v uint64, prefix []byte) ev {
 		e["dec_i64"] = v8(0)
 	}
 	return e
+}
+
+// quicwireRefVarint is the harness's own shortest-form encoding (RFC 9000, section 16)
+func quicwireRefVarint(v uint64) []byte {
+	switch {
+	case v < 1<<6:
+		return []byte{byte(v)}
+	case v < 1<<14:
+		return []byte{0x40 | byte(v>>8), byte(v)}
+	case v < 1<<30:
+		return []byte{0x80 | byte(v>>24), byte(v >> 16), byte(v >> 8), byte(v)}
+	}
+	return []byte{0xc0 | byte(v>>56), byte(v >> 48), byte(v >> 40), byte(v >> 32), byte(v >> 24), byte(v >> 16), byte(v >> 8), byte(v)}
 }
 
 func varintInEvent(b []byte) ev {
@@ -104,6 +131,15 @@ func varintInEvent(b []byte) ev {
 
 func varintBytesEvent(prefix, s []byte) ev {
 	e := ev{"op": "Bytes", "prefix": B(prefix), "s": B(s)}
+	// in-place framing: the payload already lies in the buffer, its length is back-filled in front of it
+	{
+		w := len(quicwireRefVarint(uint64(len(s))))
+		buf := make([]byte, w+len(s)+8)
+		copy(buf[w:], s)
+		var got []byte
+		e["inplace_panic"] = guard(func() { got = quicwire.AppendVarintBytes(buf[:0], buf[w:w+len(s)]) })
+		e["inplace_out"] = B(got)
+	}
 	dst := make([]byte, len(prefix), len(prefix)+8)
 	copy(dst, prefix)
 	var out []byte
@@ -233,6 +269,12 @@ func genVarint(c *ctx, emit func(ev)) {
 				for _, delta := range []int{0} {
 					_ = delta
 					in := append(append([]byte{}, enc...), randBytes(r, body)...)
+					if d >= 1<<30-1 {
+						// run one at a time: a decoder that allocates what is declared before it looks at what is there
+						// must not take the driver down with 16 such calls at once (the result is what decides)
+						w.emit(ev{"op": "In", "b": B(in), "serial": true})
+						continue
+					}
 					w.in(in)
 				}
 			}
